@@ -187,7 +187,7 @@ verif_harness! {
     prop: |inp| { k::w_enc_rk(inp, Route::RefClone) }
 }
 
-//@ harness name=kuz_soft_par3 prop=C04,C20 tier=quick bits=1664 stub=1 est=219 desc="W: KuznyechikEnc::encrypt_blocks on 3 blocks (exactly one 3-wide encrypt_par_blocks batch of the big_soft back end) == three encrypt_block calls on the same instance, all three output blocks; arbitrary round keys, all block contents"
+//@ harness name=kuz_soft_par3 prop=C04,C20 tier=quick bits=1664 stub=1 est=185 need=5 desc="W: KuznyechikEnc::encrypt_blocks on 3 blocks (exactly one 3-wide encrypt_par_blocks batch of the big_soft back end) == three encrypt_block calls on the same instance, all three output blocks; arbitrary round keys, all block contents"
 verif_harness! {
     name: kuz_soft_par3,
     bytes: 160 + 48,
